@@ -2,3 +2,4 @@
 import Cstl.Base.Driver
 import Cstl.SList.Model
 import Cstl.SList.Props
+import Cstl.DList.Props
